@@ -137,6 +137,8 @@ fn parse(text: &str) -> Parse {
     impl Parser {
         fn parse_entry(&mut self) {
             while self.current() == Some(COMMENT) {
+                #[cfg(feature = "verif-hooks")]
+                crate::verif::tick(1, crate::verif::cur_code(self.current()));
                 self.bump();
 
                 match self.current() {
@@ -182,7 +184,11 @@ fn parse(text: &str) -> Parse {
                 self.builder.finish_node();
             }
             loop {
+                #[cfg(feature = "verif-hooks")]
+                crate::verif::tick(2, crate::verif::cur_code(self.current()));
                 while self.current() == Some(WHITESPACE) || self.current() == Some(VALUE) {
+                    #[cfg(feature = "verif-hooks")]
+                    crate::verif::tick(3, crate::verif::cur_code(self.current()));
                     self.bump();
                 }
 
@@ -214,6 +220,8 @@ fn parse(text: &str) -> Parse {
             self.builder.start_node(PARAGRAPH.into());
             while self.current() != Some(NEWLINE) && self.current().is_some() {
                 self.parse_entry();
+                #[cfg(feature = "verif-hooks")]
+                crate::verif::tick(4, crate::verif::cur_code(self.current()));
             }
             self.builder.finish_node();
         }
@@ -223,6 +231,8 @@ fn parse(text: &str) -> Parse {
             self.builder.start_node(ROOT.into());
             while self.current().is_some() {
                 self.skip_ws_and_newlines();
+                #[cfg(feature = "verif-hooks")]
+                crate::verif::tick(5, crate::verif::cur_code(self.current()));
                 if self.current().is_some() {
                     self.parse_paragraph();
                 }
@@ -249,6 +259,8 @@ fn parse(text: &str) -> Parse {
         }
         fn skip_ws(&mut self) {
             while self.current() == Some(WHITESPACE) || self.current() == Some(COMMENT) {
+                #[cfg(feature = "verif-hooks")]
+                crate::verif::tick(6, crate::verif::cur_code(self.current()));
                 self.bump()
             }
         }
@@ -257,9 +269,13 @@ fn parse(text: &str) -> Parse {
                 || self.current() == Some(COMMENT)
                 || self.current() == Some(NEWLINE)
             {
+                #[cfg(feature = "verif-hooks")]
+                crate::verif::tick(7, crate::verif::cur_code(self.current()));
                 self.builder.start_node(EMPTY_LINE.into());
                 while self.current() != Some(NEWLINE) && self.current().is_some() {
                     self.bump();
+                    #[cfg(feature = "verif-hooks")]
+                    crate::verif::tick(8, crate::verif::cur_code(self.current()));
                 }
                 if self.current() == Some(NEWLINE) {
                     self.bump();
